@@ -60,6 +60,7 @@ typedef struct {
   volatile int atomicfilter;  // atomics are choice points only at conflict-observed sites (like plain accesses)
   volatile int envall;    // offer environment deviations at every unconditional scheduling point (no reduction)
   volatile int nofilter;  // discovery pass: every instrumented access is a choice point
+  volatile int focus;     // -focus: pre-emption alternatives only before operations on ranges declared with fmc_focus()
 } shared_t;
 
 typedef struct {
